@@ -135,7 +135,17 @@ Qed.
 (* on the wire: whatever case line parses *)
 Theorem model_meets_spec_wire : forall l m ts,
   parse_case l = Some (m, ts) -> run_spec l (run_model l) = [].
-Proof. intros l m ts P. unfold run_spec, run_model. rewrite P. apply check_case_model. Qed.
+Proof.
+  intros l m ts P. unfold run_spec, run_model. destruct (is_purity l); [reflexivity|].
+  rewrite P. apply check_case_model.
+Qed.
+
+(* a purity-probe line: the model predicts PURE, which the checker accepts *)
+Theorem model_meets_spec_purity_line : forall l, is_purity l = true -> run_spec l (run_model l) = [].
+Proof. intros l H. unfold run_spec, run_model. rewrite H. reflexivity. Qed.
+
+Example purity_line_nonvacuous : is_purity [tag "PURITY"; TZ 7; TZ 4; TZ 60; TZ 3] = true.
+Proof. reflexivity. Qed.
 
 Example model_meets_spec_nonvacuous :
   exists m ts, parse_case [tag "SV"; TZ 0; TB [x6b]; tag "i"; TZ 5; tag ";"; tag "AT"; TZ 1; tag "|"; tag "CUR"] = Some (m, ts)
